@@ -405,7 +405,7 @@ func allocateFromScope(requirements *GPURequirements, scope *GPUTopologyScope, a
 		if !ok {
 			contextOfDevice = &DeviceLevelContext{}
 			scopeLevelContext.contextOfDevices[minor] = contextOfDevice
-			contextOfDevice.satisfied, _ = quotav1.LessThanOrEqual(requirements.requestsPerGPU, freeResources)
+			contextOfDevice.satisfied, _ = quotav1.LessThanOrEqual(completeGPURequest(requirements.requestsPerGPU, totalResources), freeResources)
 			_, belongToTotal := allocateContext.deviceTotal[minor]
 			contextOfDevice.satisfied = contextOfDevice.satisfied && belongToTotal
 			if contextOfDevice.satisfied && requirements.gpuShared && allocateContext.allocationScorer != nil {
